@@ -12,7 +12,7 @@ PROPERTY = "C08"
 LEVEL = "model_checking"
 VARIANTS = ["fast"]
 RULE = ("all operation sequences of length <=2 (quick) / <=3 (thorough) over ~50 operations (in-place ops with boundary indices, copying "
-        "ops followed by mutation, self-containment attempts direct / through an intermediate container / through a hashmap) from 4 "
+        "ops followed by mutation, self-containment attempts direct / through an intermediate container / through a hashmap) from 5 "
         "aliasing patterns; states = distinct reference heaps (up to printing) reached; transitions = operations executed and compared")
 ASSUMPTIONS = [
     "strict content comparison only where the statement fixes the rule (set beyond the end grows with nils; negative index / negative size / "
@@ -27,6 +27,8 @@ PATTERNS = {
     "b=a": "a = [1,2,3]; b = a; c = [6]; d = nil; m = createHashMap;",
     "c=[a]": "a = [1,2,3]; b = [4]; c = [a]; d = nil; m = createHashMap;",
     "b=a,c=[a,b]": "a = [1,2]; b = a; c = [a, b]; d = nil; m = createHashMap;",
+    # the same array sits in two slots AND holds an array itself: a deep copy reaches it over two paths
+    "b=[a,7],c=[b,b]": "a = [1,2]; b = [a, 7]; c = [b, b]; d = nil; m = createHashMap;",
 }
 
 
@@ -37,6 +39,8 @@ def init_heap(p):
         a = [1, 2, 3]; b = a; c = [6]
     elif p == "c=[a]":
         a = [1, 2, 3]; b = [4]; c = [a]
+    elif p == "b=[a,7],c=[b,b]":
+        a = [1, 2]; b = [a, 7]; c = [b, b]
     else:
         a = [1, 2]; b = a; c = [a, b]
     return {"a": a, "b": b, "c": c, "d": None, "m": {}}
@@ -140,7 +144,10 @@ def has_map(x):
 def deep(x):
     if has_map(x):
         raise Unspecified()     # whether + copies a HashMap held by the array is not fixed by the statement (it is about arrays)
-    return copy.deepcopy(x)
+    return tree_copy(x)
+def tree_copy(x):
+    """+array copies along every path: an array reachable over two slots becomes two independent copies."""
+    return [tree_copy(e) for e in x] if isinstance(x, list) else x
 OPS.append(("d = +a", "d = +a", lambda h: h.__setitem__("d", deep(h["a"]))))
 OPS.append(("d = +c", "d = +c", lambda h: h.__setitem__("d", deep(h["c"]))))
 OPS.append(("d = a + [9]", "d = a + [9]", lambda h: h.__setitem__("d", list(h["a"]) + [9])))
@@ -303,4 +310,4 @@ def check(ws, case):
 
 def spaces(tier):
     return [Space("heap-histories", gen(2 if tier == "quick" else 3), check, variant="fast",
-                  describe="operation sequences over %d operations from 4 aliasing patterns" % len(OPS))]
+                  describe="operation sequences over %d operations from 5 aliasing patterns" % len(OPS))]
